@@ -291,7 +291,10 @@ func RunEngine(t *testing.T) {
 		for {
 			time.Sleep(time.Second)
 			if time.Since(time.Unix(0, progressAt.Load())) > time.Duration(hangSecs)*time.Second {
-				buf := make([]byte, 1<<20)
+				// (crashed instances leave their goroutines behind in their finished bubbles: the
+				// dump of a long run has thousands of goroutines, and the classification below
+				// must see the LAST bubble, which comes last in the dump)
+				buf := make([]byte, 64<<20)
 				n := runtime.Stack(buf, true)
 				idx := progressIdx.Load()
 				_ = os.WriteFile(filepath.Join(work, fmt.Sprintf("hang-%d.txt", idx)), buf[:n], 0o644)
@@ -310,8 +313,6 @@ func RunEngine(t *testing.T) {
 				flush()
 				fmt.Fprintf(os.Stderr, "VERIF-HANG index=%d\n", idx)
 				if os.Getenv("VERIF_HANGDUMP") != "" {
-					buf := make([]byte, 16<<20)
-					n := runtime.Stack(buf, true)
 					os.Stderr.Write(buf[:n])
 				}
 				os.Exit(75)
